@@ -187,7 +187,7 @@ func c15(cx *Ctx, r *ev.Report) {
 		addr := m.atom(m.args[1], 16)
 		exp := dom.NewTrace(c)
 		res := exp.Emit(bdd.True, "map.get", "recv", []dom.BV{addr}, 9, "ref")
-		m.compare(r, "C15/map-type/func=MapMemory.Get", "ACCESSOR-EQ: result = present(addr) ? value(addr) : 0xC7; one lookup keyed by the unmodified address", exp, c.Mux(res[8], res.Slice(0, 8), c.Const(8, 0xC7)))
+		m.compare(r, "C15/map-type/func=MapMemory.Get", "ACCESSOR-EQ: result = present(addr) ? value(addr) : 0xC7; one lookup keyed by the unmodified address", exp, c.Mux(c.M.And(c.M.Not(c.Atom("IsNil(recv)", 1)[0]), res[8]), res.Slice(0, 8), c.Const(8, 0xC7)))
 	} else {
 		r.Undecide("C15/map-type/func=MapMemory.Get", "ACCESSOR-EQ", "", m.err.Error())
 	}
